@@ -279,7 +279,7 @@ theorem hooks_keyFree (k : K) (hks : List (Bool × Prog K V C E Unit))
   | cons hk t ih =>
     rw [List.foldl_cons]
     obtain ⟨h1, h2⟩ := hall hk (List.mem_cons_self ..)
-    have hkf : KeyFree k (n.dlv.toSt n.tree) := ⟨h, fun o ho => by
+    have hkf : KeyFree k (n.dlv.unmetered n.tree) := ⟨h, fun o ho => by
       have : n.dlv.sess = some o := ho
       rw [hs0] at this; cases this⟩
     refine ih (fun x hx => hall x (List.mem_cons_of_mem _ hx)) _
